@@ -18,7 +18,7 @@ from fakes import c06_mem
 
 ID = 'C06'
 PROPERTY_FILE = 'C06/Property.v'
-LEVEL = 'proof'
+LEVEL = 'other'
 ALLOWED_AXIOMS = ()
 TRUSTED_BASE = [
     'C06/Model.v is hand-written from cflib/crazyflie/mem/__init__.py (_ReadRequest, _WriteRequest, Memory.read/write, '
